@@ -399,6 +399,27 @@ def stream_struct(tier, seed):
         op = btc.rand_bytes(rng, 36)
         if k % 3 == 0:
             group("outpoint", op, [("txid", 0, 32), ("vout", 32, 4)], 0, tag="valid")
+    # wide compact sizes with their full payload present: every (minimal and non-minimal) form of the
+    # boundary lengths, as script length, witness element length and element count
+    for ln in (252, 253, 65535, 65536):
+        payload = btc.rand_bytes(rng, ln)
+        for form in btc.cs_forms(ln):
+            group("script", form + payload + b"\x99", [], 0, tag="wide", big=(ln > 1000), prefixes=(ln < 1000))
+            group("txout", bytes(range(1, 9)) + form + payload, [], 0, tag="wide", big=(ln > 1000), prefixes=False)
+            group("witness", b"\x02\x01\xaa" + form + payload, [], 0, tag="wide", big=(ln > 1000), prefixes=False)
+    for shape in ([65536, 3], [2, 65535], [1, 65536, 2], [0, 65537]):
+        w = [btc.rand_bytes(rng, n_) for n_ in shape]
+        b, fields = btc.obj_bytes("witness", w)
+        group("witness", b, fields, 0, tag="bigwit", big=True)
+        tx = btc.rand_tx(rng, segwit=True, nin=2, nout=1)
+        tx["wits"] = [[b"\x01\x02"], w]
+        tb, tf = btc.tx_bytes(tx)
+        group("transaction", tb, tf, nbreak_tx(tx), tag="bigwit", big=True, maxbrk=6)
+        wb = bytes(btc.obj_bytes("witness", [b"\x05"])[0]) + b
+        group("witnesses", wb, [], 2, param=2, tag="bigwit", big=True, maxbrk=3)
+        blk = {"header": btc.rand_header(rng), "txs": [btc.rand_tx(rng, nin=1, nout=1), tx, btc.rand_tx(rng, nin=1, nout=1)]}
+        bb, bf = btc.block_bytes(blk)
+        group("block", bb, bf, 12, tag="bigwit", big=True, maxbrk=3)
     # script lengths across the boundaries, and huge declared lengths
     for ln in [0, 1, 252, 253, 254, 255, 256, 65535, 65536]:
         sb = btc.cs(ln) + btc.rand_bytes(rng, ln)
